@@ -10,6 +10,7 @@ class Check(ReduceBase):
     props = ['Tables.v', 'C07.v', 'C07Side.v']
     static_targets = ReduceBase.static_targets + ['theories/Lemmas/Normal.vo', 'theories/Lemmas/NormalSideL.vo']
     trusted = ReduceBase.trusted_common
+    want_normal_form = True
 
     def comparable(self, case, obs):
         if not isinstance(obs, dict) or 'build_error' in obs:
